@@ -6,6 +6,13 @@ HERE = os.path.dirname(os.path.dirname(os.path.abspath(__file__)))
 
 # id -> (category, technique, text, note)
 CLAIMED = {
+ "C13": ("other", "value-chain extraction of the staged pipeline per configuration branch, linear normal forms of the four difference options, effect summary of the probe argument (ast)",
+         "Decides for every input and both stage orders: the stages run in the documented order, each on exactly the previous stage's "
+         "result, each being the identity when its operator is absent; the four difference options are I-B, clip0(I-B), clip0(B-I), "
+         "|I-B| (B = 0 without baseline), so positive+negative=absolute, positive-negative=plain and the baseline maps to 0 in real "
+         "arithmetic; the probe is deep-copied and never written; the result carries the probe's metadata and is scalar exactly "
+         "when one axis was reduced. Not decided: numerical behaviour of user-supplied stages.",
+         "Trusted: python ast parser; skimage.util.compare_images(a, b, method='diff') = |a - b| (frozen external fact); sa/effects.py."),
  "C12": ("other", "non-commutative normal forms of the accumulated balance against the application convention read from apply_balance; pack/unpack layout agreement of the fit; stage-order provenance (ast)",
          "Decides for every swatch set and stage sequence: the accumulated scaling/translation equals sequential application of the "
          "stages under the operand side apply_balance actually uses (convention-relative, all modes); each fit starts at the current "
